@@ -376,9 +376,15 @@ def _mk_native(o):
     if o is None:
         return None
     d = o['d']
+    memo = {}       # the same node of the value tree becomes the same instance (shared references)
+
+    def inner(x):
+        if id(x) not in memo:
+            memo[id(x)] = Inner(**x)
+        return memo[id(x)]
     return Obj(n=o['n'], s=o['s'], d=_native_dec(d), dt=_native_date(o['dt']), b=o['b'],
-               inner=Inner(**o['inner']), arr=o['arr'],
-               objs=[Inner(**x) for x in o['objs']] if o['objs'] is not None else None)
+               inner=inner(o['inner']), arr=o['arr'],
+               objs=[inner(x) for x in o['objs']] if o['objs'] is not None else None)
 
 
 def _native_dec(d):
@@ -407,6 +413,12 @@ def response_fidelity(sx, cfg):
     ctx = deliver(sx, pname, app, server, {'f': [1, 'x', None] if as_list else {'a': 1}})
     narr = sx.choose('narr', [2, 0, None])
     o = mk_obj(sx, 'r', narr, 1, lean=pname.startswith('msgpack'))
+    # the returned object graph may reference one instance from two places (it is acyclic all the same)
+    share = sx.choose('share', ['none', 'inner is objs[0]', 'objs[0] is objs[1]'])
+    if share == 'inner is objs[0]':
+        o['objs'] = [o['inner']]
+    elif share == 'objs[0] is objs[1]':
+        o['objs'] = [o['objs'][0], o['objs'][0]]
     # the decimal has no redundant digits so that its canonical text is unique
     sx.assume(sx.Not(sx.eq(o['d']['fp'][1:], '0')))
     doc = respond(sx, pname, app, ctx, [_mk_native(o)])
